@@ -158,6 +158,14 @@ Proof.
   intros H. unfold used_list. apply filter_ext_in. intros c Hc. apply in_seq in Hc. apply H. lia.
 Qed.
 
+Lemma used_list_def map : used_list map = filter (used_bit map) (seq 0 37).
+Proof. reflexivity. Qed.
+Lemma num_used_def map : num_used map = length (used_list map).
+Proof. reflexivity. Qed.
+(* from here on the used list is only handled through the lemmas above (its body is a 37-fold
+   nested conditional that unification must not open) *)
+Global Opaque used_list num_used.
+
 (* ------------------------------------------------------------------ CSA#1: sanity of the spec *)
 Lemma csa1_used map hop k :
   1 <= num_used map -> csa1 map hop k < 37 /\ used_bit map (csa1 map hop k) = true.
@@ -165,7 +173,7 @@ Proof.
   intros H. unfold csa1, csa1_with.
   destruct (used_bit map (unmapped hop k)) eqn:U.
   - split; [apply unmapped_lt|exact U].
-  - apply used_list_In, used_list_nth_In, Nat.mod_upper_bound. lia.
+  - apply (proj1 (used_list_In _ _)), used_list_nth_In, Nat.mod_upper_bound. lia.
 Qed.
 
 Lemma csa1_period map hop k : csa1 map hop (k mod 37) = csa1 map hop k.
@@ -174,7 +182,7 @@ Proof. unfold csa1. rewrite unmapped_period. reflexivity. Qed.
 Lemma csa1_ext m1 m2 hop k :
   (forall c, c < 37 -> used_bit m1 c = used_bit m2 c) -> csa1 m1 hop k = csa1 m2 hop k.
 Proof.
-  intros H. unfold csa1, csa1_with, num_used.
+  intros H. unfold csa1, csa1_with. rewrite !num_used_def.
   rewrite (used_list_ext m1 m2 H), (H (unmapped hop k) (unmapped_lt hop k)). reflexivity.
 Qed.
 
@@ -198,8 +206,8 @@ Proof. apply table_from_length. Qed.
 Lemma csa1_table_nth map hop k d :
   k < 37 -> nth k (csa1_table map hop) d = N.of_nat (csa1 map hop k).
 Proof.
-  intros H. unfold csa1_table. cbv zeta. rewrite <- unmapped_0.
-  exact (table_from_nth map hop 37 0 k d H).
+  intros H. unfold csa1_table. cbv zeta. rewrite <- unmapped_0, <- num_used_def.
+  rewrite table_from_nth by exact H. reflexivity.
 Qed.
 
 (* ------------------------------------------------------------------ the two loops of reset() *)
@@ -227,7 +235,7 @@ Section Loops.
   Proof.
     induction rem as [|rem IH]; intros channel used count Hc Hl Hcount Hu.
     - cbn [build_used]. assert (channel = 37) by lia. subst channel.
-      exists used. unfold num_used, used_list. fold (acc 37). rewrite <- Hcount. auto.
+      exists used. rewrite num_used_def, used_list_def. fold (acc 37). rewrite <- Hcount. auto.
     - cbn [build_used]. rewrite (in_map_5 map channel Lmap) by lia.
       pose proof (acc_length channel) as Hle.
       assert (Hacc : acc (S channel) = acc channel ++ (if used_bit map channel then [channel] else []))
@@ -270,7 +278,7 @@ Section Loops.
       (forall i, index <= i < 37 -> nth i t 0%N = N.of_nat (csa1 map hop i)).
   Proof.
     induction rem as [|rem IH]; intros index t0 Hi Hl.
-    - cbn [fill]. exists t0. repeat split; auto. intros i H. lia.
+    - cbn [fill]. exists t0. split; [reflexivity|]. split; [exact Hl|]. split; [reflexivity|]. intros i H. lia.
     - cbn [fill]. unfold max_number_of_data_channels.
       pose proof (unmapped_lt hop index) as Hu.
       rewrite (in_map_5 map _ Lmap Hu). rewrite <- unmapped_S.
@@ -285,7 +293,7 @@ Section Loops.
                   (forall i, index <= i < 37 -> nth i t 0%N = N.of_nat (csa1 map hop i))).
       { intros v Hv.
         destruct (IH (S index) (upd t0 index v)) as (t & E & L & Hlo & Hhi); [lia|rewrite upd_length; exact Hl|].
-        exists t. repeat split; auto.
+        exists t. split; [exact E|]. split; [exact L|]. split.
         - intros i H. rewrite Hlo by lia. apply nth_upd_neq. lia.
         - intros i H. destruct (Nat.eq_dec i index) as [->|Hne].
           + rewrite Hlo by lia. rewrite nth_upd_eq by lia. exact Hv.
@@ -315,7 +323,7 @@ Lemma reset_accepts s map hop :
     t = csa1_table map (N.to_nat hop).
 Proof.
   intros Lm Hh Hn Lt. unfold reset_impl. rewrite hop_check.
-  destruct (proj2 (valid_hop_iff hop) Hh). cbn [negb].
+  rewrite (proj2 (valid_hop_iff hop) Hh). cbn [negb].
   unfold max_number_of_data_channels.
   destruct (build_used_37 map Lm) as (used & -> & Hused).
   destruct (Nat.ltb_spec (num_used map) 2); [lia|].
@@ -357,16 +365,16 @@ Proof.
   - destruct (valid_map map) eqn:M; unfold valid_map in M.
     + apply Nat.leb_le in M.
       destruct (reset_accepts s map hop Lm (proj1 (valid_hop_iff hop) V) M Lt) as (t & -> & ->).
-      cbn. rewrite csa1_table_length. auto.
+      cbn [andb tbl hop_ dead]. rewrite csa1_table_length. auto.
     + apply Nat.leb_gt in M.
       destruct (reset_rejects s map hop Lm (or_intror M)) as (h & E & _).
       pose proof E as E'. unfold reset_impl in E'. rewrite hop_check, V in E'. cbn [negb] in E'.
       unfold max_number_of_data_channels in E'.
       destruct (build_used_37 map Lm) as (used & Eb & _). rewrite Eb in E'.
       destruct (Nat.ltb_spec (num_used map) 2); [|lia].
-      rewrite E. cbn. inversion E'. repeat split; auto.
-      apply valid_hop_iff in V. unfold hop_ok in V. symmetry. apply N.mod_small. lia.
+      rewrite E. cbn [andb tbl hop_ dead]. inversion E'. repeat split; auto.
+      apply valid_hop_iff in V. unfold hop_ok in V. apply N.mod_small. lia.
   - assert (Hn : ~ hop_ok hop) by (rewrite <- valid_hop_iff, V; discriminate).
     destruct (reset_rejects s map hop Lm (or_introl Hn)) as (h & -> & Hh).
-    cbn. rewrite (Hh Hn). auto.
+    cbn [andb tbl hop_ dead]. rewrite (Hh Hn). auto.
 Qed.
